@@ -7,13 +7,25 @@ Import ListNotations.
 Open Scope Z_scope.
 
 (* ---------- the three functions ---------- *)
+(* the body of the per-plate loop [fix fx5]: np.all(screen.observations[screen.plate_ids == plate_id] == 0) *)
+Lemma plate_zero_src s pid :
+  np_all (np_eq_zero (select (np_eq_Z (s_pids s) pid) (col_obs s))) = forallb obs_is_zero (plate_values s pid).
+Proof. unfold np_all, np_eq_zero, np_eq_Z, col_obs, plate_values. now rewrite forallb_id_map, select_map. Qed.
+
+Lemma forallb_negb_existsb {A} (q : A -> bool) l : forallb (fun x => negb (q x)) l = negb (existsb q l).
+Proof. induction l as [|a l IH]; cbn [forallb existsb]; [reflexivity|]. rewrite IH. now destruct (q a). Qed.
+
 Theorem src_reveal_plates_is_model : forall (s : screen) (ids : list Z),
   src_reveal_plates s ids = reveal_plates (carry_mappings true) s ids.
 Proof.
-  intros s ids. unfold src_reveal_plates, reveal_plates, revealed_values, reveal_rows, reveal_sel.
-  cbn [carry_mappings carry_reveal]. fold (np_isin (s_pids s) ids).
+  intros s ids. unfold src_reveal_plates, reveal_plates, reveal_zero_guard, revealed_plate_ids, revealed_values, reveal_rows, reveal_sel.
+  cbn [carry_mappings carry_reveal]. fold (np_isin (s_pids s) ids). cbv zeta.
+  rewrite (res_fold_check (fun pid => negb (forallb obs_is_zero (plate_values s pid))) 8)
+    by (intros u a; rewrite plate_zero_src; now destruct (forallb obs_is_zero (plate_values s a))).
+  rewrite forallb_negb_existsb.
   unfold np_all, np_any, np_eq_zero, np_isnan, col_obs at 1 2. rewrite select_map, forallb_id_map, existsb_id_map.
-  destruct (forallb obs_is_zero _); [reflexivity|].
+  destruct (forallb obs_is_zero _); [reflexivity|]. cbn [orb].
+  destruct (existsb (fun pid => forallb obs_is_zero (plate_values s pid)) _); cbn [negb res_bind]; [reflexivity|].
   destruct (existsb obs_is_nan _); [reflexivity|].
   rewrite res_bind_ok_r, py_screen_of_screen. unfold col_mask. now rewrite remask_or.
 Qed.
